@@ -59,6 +59,10 @@ func init() {
 	heapSorts["Lib#rscur"] = "(Array Int Int)"
 	libModels = map[string]libModel{
 		"errors.New":        modelNewError,
+		"regexp.MustCompile": func(e *Enc, f *frame, st *State, in *ssa.Call, args []Val, rs *Shape) Val {
+			r := e.alloc(st)
+			return Val{Sh: rs, T: r}
+		},
 		"fmt.Errorf":        modelNewError,
 		"fmt.Sprintf":       modelSprintf,
 		"fmt.Sprint":        modelSprintf,
